@@ -633,7 +633,8 @@ namespace GeographicLib {
         dn = Delta(sn, cn),
         err = (E(sn, cn, dn) - x)/dn;
       phi -= err;
-      if (!(fabs(err) > tolJAC))
+      // (relative to the angle for small angles: the residual of the last step is quadratic in err)
+      if (!(fabs(err) > tolJAC * fmin(real(1), fabs(phi))))
         break;
     }
     return n * Math::pi() + phi;
